@@ -301,3 +301,30 @@ func Arena(p []byte) (view []byte, intact func() string) {
 		return ""
 	}
 }
+
+// Transient puts ONE fault that consumes nothing in front of byte At of a stream: the Read that would deliver that
+// byte returns (0, Err) instead - an expired read deadline, say - and the next Read goes on as if nothing had
+// happened. Reads never cross At, so the fault falls exactly there.
+type Transient struct {
+	R     io.Reader
+	At    int
+	Err   error
+	pos   int
+	Fired bool
+}
+
+func (t *Transient) Read(p []byte) (int, error) {
+	if !t.Fired && t.pos == t.At {
+		t.Fired = true
+		return 0, t.Err
+	}
+	if !t.Fired && t.pos < t.At && t.pos+len(p) > t.At {
+		p = p[:t.At-t.pos]
+	}
+	n, err := t.R.Read(p)
+	t.pos += n
+	return n, err
+}
+
+// ErrTimeout is a net.Error whose Timeout() is true (what a read past its deadline returns).
+var ErrTimeout error = &netErr{"injected i/o timeout", true, true}
